@@ -226,6 +226,10 @@ fn check_execution(init_idx: usize, sig: &[Op], prog: &Prog, e: &Execution, seq:
         }
     }
     let name = if torn.is_empty() { format!("program={}", prog_sig(sig, prog)) } else { format!("multi-section-calls={}", torn.into_iter().collect::<Vec<_>>().join(",")) };
+    // a multi-step call (a handle) that ran to completion exempts the execution from linearizability; one that
+    // was refused at the open is a single step like any other
+    // (refused at the open = a path validation error; an io error comes from a later flush of an open handle)
+    let lin = lin && e.recs.iter().enumerate().all(|(t, r)| r.iter().enumerate().all(|(i, x)| !multi_step(&sig[prog[t][i]]) || (!x.out.ok && x.out.err.starts_with("Path("))));
     let outs: Vec<Vec<String>> = e.recs.iter().map(|r| r.iter().map(|x| x.out.transcript()).collect()).collect();
     let dump = e.fs.verif_dump();
     let case = || case_json(init_idx, prog, &e.schedule, sig);
@@ -343,7 +347,9 @@ fn new_totals() -> Totals {
 fn run_program(ex: &Explorer, init_idx: usize, sig: &[Op], prog: &Prog, tot: &Totals, bound: Option<u32>, cap: u64) -> Result<(), String> {
     let setup = &inits()[init_idx].1;
     let programs: Vec<Vec<Op>> = prog.iter().map(|p| p.iter().map(|&i| sig[i].clone()).collect()).collect();
-    let lin = !integrity_only() && !programs.iter().flatten().any(multi_step);
+    // (programs whose only multi-step calls are handle opens keep their sequential outcomes: an execution in
+    // which every such open was *refused* consists of single steps only and is held to linearizability)
+    let lin = !integrity_only() && programs.iter().flatten().filter(|o| multi_step(o)).all(|o| matches!(o, Op::WriteHandle(..) | Op::AppendHandle(..)));
     // sequential outcomes, computed twice on independently built instances (different hash seeds)
     let (seq, deterministic) = if lin {
         let a = seq_outcomes(setup, sig, prog);
@@ -463,6 +469,15 @@ fn families(tier: Tier) -> Vec<Family> {
         }
     }
     f.push(Family { name: "open write/append handle x 2 calls on the same name", inits: None, progs: hp, bound: None, cap: 200_000 });
+    // a handle open that is refused (no parent yet) while another thread creates the parent and the file: a
+    // refused open leaves nothing behind that could reach the file later
+    let mut rp: Vec<Prog> = vec![];
+    for h in [36usize, 37] {
+        for b in sequences(&[5usize, 2, 6, 0], 2) {
+            rp.push(vec![vec![h], b]);
+        }
+    }
+    f.push(Family { name: "refused handle open x 2 calls that create the name", inits: Some(vec![0]), progs: rp, bound: None, cap: 200_000 });
     // relative arguments against a moving cwd (both paths of a two-path call resolve against one cwd)
     f.push(Family { name: "2x2 over the relative-argument core, cwd /d", inits: Some(vec![3]), progs: programs_tk(&relcore, 2, 2), bound: None, cap: 200_000 });
     let linkcore: Vec<usize> = vec![46, 47, 48, 49, 50, 51];
@@ -659,7 +674,7 @@ fn replay(ctx: &Ctx, p: &std::path::Path) -> i32 {
     let schedule: Vec<u8> = case.get("schedule").and_then(|x| x.as_arr()).expect("schedule").iter().map(|x| x.as_i64().unwrap() as u8).collect();
     println!("replay C04 program [{}] init {} schedule {:?}", prog_name(&sig, &prog), inits()[init_idx].0, schedule);
     let programs: Vec<Vec<Op>> = prog.iter().map(|p| p.iter().map(|&i| sig[i].clone()).collect()).collect();
-    let lin = !programs.iter().flatten().any(multi_step);
+    let lin = programs.iter().flatten().filter(|o| multi_step(o)).all(|o| matches!(o, Op::WriteHandle(..) | Op::AppendHandle(..)));
     let seq = if lin { seq_outcomes(&inits()[init_idx].1, &sig, &prog) } else { vec![] };
     let ex = Explorer::new(3);
     let init = build_init(&inits()[init_idx].1);
